@@ -334,7 +334,27 @@ func genC20(r *Rng, idx int, tier string) *Scenario {
 			rx.Scribble = Pick(r, "", "complement", "complement", "random", "zero")
 			rx.Hold = Pick(r, 0, 0, 1, 2, 4, 8)
 			st := Step{Op: "deliver", Dgram: pending[k], Rx: rx, Obj: Pick(r, "long", "twin")}
-			if nilkeys[pending[k]] && r.Chance(1, 3) {
+			if nilkeys[pending[k]] && r.Chance(1, 6) {
+				// a plain datagram with an EAP-AKA' packet carrying attribute types the library has no reader for
+				n := r.Range(2, 4)
+				eapLen := 8 + 4*n
+				d := make([]byte, 28)
+				r.Fill(d[:16])
+				d[16], d[17], d[18], d[19] = 48, 0x20, 35, 8
+				total := 28 + 4 + eapLen
+				d[24], d[25], d[26], d[27] = byte(total>>24), byte(total>>16), byte(total>>8), byte(total)
+				d = append(d, 0, 0, byte((4+eapLen)>>8), byte(4+eapLen))
+				d = append(d, 1, r.U8(), byte(eapLen>>8), byte(eapLen), 50, Pick[uint8](r, 1, 5), 0, 0)
+				used := map[uint8]bool{}
+				for len(used) < n {
+					t := Pick[uint8](r, 5, 6, 7, 10, 13, 135, 136, 137, 200)
+					if !used[t] {
+						used[t] = true
+						d = append(d, t, 1, 0, 0)
+					}
+				}
+				st.Fault = &Fault{Kind: "garbage", Data: d}
+			} else if nilkeys[pending[k]] && r.Chance(1, 3) {
 				// an accepted byte string that no encoder of ours produced: reserved / high bits set, fields edited
 				st.Fault = &Fault{Kind: "bitflip", Byte: 28 + r.Intn(60), Bit: Pick(r, 7, 7, 6, r.Intn(8))}
 			}
